@@ -50,7 +50,7 @@ def gen_case(rng, tier_quick):
     nout = rng.choice([1, 2])
     exps = [rng.choice([-9, -7, -6, -4, -3, -1, 0, 0, 1, 3, 6, 9]) for _ in range(nin)]
     a = [10.0 ** e * rng.choice([1.0, 2.5, 0.5]) for e in exps]
-    b = [rng.choice([0.0, 0.0, 1.0, -3.0, 1e3, -1e6]) * ai for ai in a]
+    b = [rng.choice([0.0, 0.0, 1.0, -3.0, 1e3, -1e6, -0.25, -0.6]) * ai for ai in a]     # (-0.25, -0.6: the origin lies INSIDE the image)
     nsteps = rng.randint(2, 6)
     return dict(nin=nin, beta_lim=beta_lim, kpl=kpl, nout=nout, a=a, b=b, nsteps=nsteps, fseed=rng.randrange(10 ** 9))
 
@@ -92,14 +92,16 @@ def run_case(ctx, res, case, lines, post):
     names = [f'x{d}' for d in range(nin)]
     ugrids = [list(unit.training_data.x_grids[n]) for n in names]
     tgrids = [list(twin.training_data.x_grids[n]) for n in names]
-    npts = 10 if ctx.quick else 20
+    npts = 12 if ctx.quick else 24
     U = []
     kinds = []
     for k in range(npts):
-        mode = ['interior', 'node', 'mixed', 'near', 'outside'][k % 5]
+        mode = ['interior', 'node', 'mixed', 'near', 'outside', 'origin'][k % 6]
         u = []
         for d in range(nin):
             v = rng.random()
+            if mode == 'origin' and b[d] < 0 < b[d] + a[d] and rng.random() < 0.8:
+                v = -b[d] / a[d]        # the point whose IMAGE is the origin of the twin's coordinate (nothing special about it)
             if mode == 'node' or (mode == 'mixed' and rng.random() < 0.5):
                 v = rng.choice(ugrids[d])
             elif mode == 'near':
@@ -115,6 +117,8 @@ def run_case(ctx, res, case, lines, post):
         for d in range(nin):
             if u[d] in ugrids[d]:
                 x.append(tgrids[d][ugrids[d].index(u[d])])
+            elif b[d] < 0 and u[d] == -b[d] / a[d]:
+                x.append(0.0)
             else:
                 x.append(b[d] + a[d] * u[d])
         X.append(x)
@@ -310,6 +314,14 @@ def run(ctx: core.Ctx, only=None) -> core.Result:
     keys = ('nin', 'beta_lim', 'kpl', 'nout', 'a', 'b', 'nsteps', 'fseed')
     cases = [o.get('input', o) for o in only] if only is not None else core.corpus_cases('C17') + \
         [gen_case(ctx.rng, ctx.quick) for _ in range(ctx.scale(24, 250))]
+    if only is None:
+        # designed: two inputs refined to DIFFERENT depths on order-one / large images that contain the origin off the nodes
+        for k_ in range(ctx.scale(3, 12)):
+            c_ = gen_case(ctx.rng, ctx.quick)
+            c_.update(nin=2, beta_lim=(1, 3) if k_ % 2 == 0 else (3, 1), kpl=2, nsteps=7,
+                      a=[[1.0, 1.0], [1000.0, 40.0], [2.5, 1.0e4]][k_ % 3], fseed=ctx.rng.randrange(10 ** 9))
+            c_['b'] = [-0.25 * c_['a'][0], -0.6 * c_['a'][1]]
+            cases.append(c_)
     if only is None:
         cases = cases + [{'native': ctx.rng.randrange(10 ** 6), 'k': k} for k in range(ctx.scale(8, 16))]
         cases = cases + [{'deep': True, 'width': w, 'off': o} for w, o in
